@@ -177,6 +177,20 @@ pub fn search(seed: u64, n: u64) {
         stats.count("input.curl_edge_crosses_itself");
         check_set(&mut stats, &mut rng_sip, &vec![path], "curl_edge_crosses_itself", 200, 200);
     }
+    // an edge that is a loop nearly cusped at t = 0.5 (F25: both halves of the edge are characterised as loops; find_self_collisions asks
+    // find_self_intersection_point about every edge), closed by its chord (own stream)
+    let mut rng_cusp = Rng(seed ^ 0xF25C12);
+    for it in 0..(30 + n / 4) {
+        let (a, c) = (rng_cusp.r(15.0, 45.0), rng_cusp.r(20.0, 45.0));
+        let e = [1e-3, 1e-5, 1e-7, 1e-9, 1e-11, 1e-13, 1e-15][(it % 7) as usize] * rng_cusp.r(0.5, 1.5);
+        let b = a * (1.0 + e);
+        let (ox, oy) = (50.0 + rng_cusp.r(-3.0, 3.0), 20.0 + rng_cusp.r(-3.0, 3.0));
+        let (p3, p0) = (Coord2(a + ox, oy), Coord2(-a + ox, oy));
+        let path: P = (p0, vec![(Coord2(b + ox, c + oy), Coord2(-b + ox, c + oy), p3), (p3 + (p0 - p3) * 0.33, p3 + (p0 - p3) * 0.66, p0)]);
+        stats.case(&format!("nearly cusped edge {:?}", path), true);
+        stats.count("input.nearly_cusped_loop_edge");
+        check_set(&mut stats, &mut rng_cusp, &vec![path], "nearly_cusped_loop_edge", 120, 120);
+    }
     // a vertex of one shape exactly ON an edge of another shape, the outline leaving through that edge there (a T-junction that is a
     // crossing), and the same with the vertex a few thousandths inside / outside the edge, so that the crossing lies within 0.01 of the
     // vertex but not at it; also one path piercing its own edge at / next to its own vertex (own stream)
